@@ -5,6 +5,9 @@
 (* Operand TEXT CLASSES (the harness spells them with register r1, the     *)
 (* enumeration key kx, the number 5, the label lab):                       *)
 (*   r  r2  [r]  [r+n]  [n]  [[n]]  r+n  key  num  lab  {n}                *)
+(*   bignum (300: a number no 8-bit field holds - WHICH alternative a text  *)
+(*   selects never depends on its value; a value the selected field cannot *)
+(*   hold rejects the statement, it does not move on to a later variant)   *)
 (*   r++  @r  (decorated register)   -[r]  (decorated indirect register)   *)
 (*   a statement may also have NO operand text at all (the empty tuple): an *)
 (*   explicitly listed combination consisting of the "empty" operand       *)
@@ -45,7 +48,7 @@ Rank(ty) ==
     CASE ty \in {"indirect_register", "indirect_register_pre"} -> 2 [] ty = "indirect_indexed_register" -> 3 [] ty = "indirect_numeric" -> 4
       [] ty = "deferred_numeric" -> 5 [] ty = "indexed_register" -> 6 [] ty = "enumeration" -> 7
       [] ty \in {"register", "register_pp", "register_at"} -> 8        \* a decorated register is a register operand
-      [] ty \in {"numeric", "numeric_va"} -> 9 [] ty = "address" -> 10 [] ty = "relative_address" -> 11 [] ty = "numeric_bytecode" -> 12
+      [] ty \in {"numeric", "numeric_va", "numeric16"} -> 9 [] ty = "address" -> 10 [] ty = "relative_address" -> 11 [] ty = "numeric_bytecode" -> 12
       [] OTHER -> 99
 
 \* does alternative a accept operand text class t?  (register operands are for r1; r2 is another declared register)
@@ -63,8 +66,8 @@ Acc(a, t) ==
       \* a numeric expression: numbers and labels (an enumeration key is, as text, an identifier, i.e. a label);
       \* NEVER a register name, alone or inside the expression
       \* numeric_va: a numeric operand whose value must be a valid address - the flag changes nothing about what text it accepts
-      [] a.ty \in {"numeric", "numeric_va", "address", "numeric_bytecode"} -> t \in {"num", "lab", "key", "hexa", "chra"}
-      [] a.ty = "relative_address" -> IF a.curly THEN t = "{n}" ELSE t \in {"num", "lab", "key", "hexa", "chra"}
+      [] a.ty \in {"numeric", "numeric_va", "numeric16", "address", "numeric_bytecode"} -> t \in {"num", "lab", "key", "hexa", "chra", "bignum"}
+      [] a.ty = "relative_address" -> IF a.curly THEN t = "{n}" ELSE t \in {"num", "lab", "key", "hexa", "chra", "bignum"}
       [] OTHER -> FALSE
 
 \* stable sort of an operand set by rank: position of the alternative tried k-th
@@ -124,6 +127,18 @@ SelectDecl(vs, ts) ==
          IN  IF sp # {} THEN [ok |-> TRUE, v |-> i, ids |-> IdsOf(v.spec[CHOOSE j \in sp : \A j2 \in sp : j <= j2])]
              ELSE [ok |-> TRUE, v |-> i, ids |-> [k \in 1..Len(ts) |-> v.sets[k][BestIn(v.sets[k], ts[k])].id]]
 
+\* the statement's fate after selection: every field has to hold its value (only numeric16 holds 300)
+AllAlts(v) == UNION {{v.spec[j][k] : k \in 1..Len(v.spec[j])} : j \in 1..Len(v.spec)} \cup UNION {{v.sets[k][a] : a \in 1..Len(v.sets[k])} : k \in 1..Len(v.sets)}
+AltById(v, id) == CHOOSE a \in AllAlts(v) : a.id = id
+Outcome(vs, ts) ==
+    LET sel == Select(vs, ts, 1) IN
+    IF ~sel.ok THEN sel
+    ELSE LET ne == SelectSeq(sel.ids, LAMBDA id : AltById(vs[sel.v], id).ty # "empty") IN
+         IF \E k \in 1..Len(ts) : ts[k] = "bignum" /\ AltById(vs[sel.v], ne[k]).ty # "numeric16"
+         THEN [ok |-> FALSE, v |-> 0, ids |-> <<>>] ELSE sel
+\* a value that does not fit never changes the selection: the statement is then rejected although a later variant could hold it
+ValueNeverSelects == isa # <<>> => (Outcome(isa, texts).ok => Outcome(isa, texts) = Select(isa, texts, 1))
+
 Init == isa = <<>> /\ texts \in TextTuples
 Next == Len(isa) < MaxVariants /\ \E v \in VariantPool : isa' = Append(isa, v) /\ UNCHANGED texts
 Spec == Init /\ [][Next]_vars
@@ -131,7 +146,7 @@ Spec == Init /\ [][Next]_vars
 SelectedIsLeastAccepting == isa # <<>> => Select(isa, texts, 1) = SelectDecl(isa, texts)
 RegisterNeverNumeric ==
     \A i \in 1..Len(isa) : \A k \in 1..Len(isa[i].sets) : \A a \in 1..Len(isa[i].sets[k]) :
-        isa[i].sets[k][a].ty \in {"numeric", "numeric_va", "address", "numeric_bytecode", "relative_address"}
+        isa[i].sets[k][a].ty \in {"numeric", "numeric_va", "numeric16", "address", "numeric_bytecode", "relative_address"}
             => ~Acc(isa[i].sets[k][a], "r") /\ ~Acc(isa[i].sets[k][a], "r2") /\ ~Acc(isa[i].sets[k][a], "r+n")
 NoAcceptingMeansRejected ==
     isa # <<>> => (Select(isa, texts, 1).ok <=> \E i \in 1..Len(isa) : VariantAccepts(isa[i], texts))
@@ -140,5 +155,5 @@ AltJ(a) == <<a.id, a.ty, IF a.off THEN 1 ELSE 0, IF a.curly THEN 1 ELSE 0>>
 VarJ(v) == [spec |-> [j \in 1..Len(v.spec) |-> [k \in 1..Len(v.spec[j]) |-> AltJ(v.spec[j][k])]],
             sets |-> [k \in 1..Len(v.sets) |-> [a \in 1..Len(v.sets[k]) |-> AltJ(v.sets[k][a])]],
             dis |-> SetToSeq(v.dis)]
-Emit == isa # <<>> => PrintT(<<"EMIT", ToJson([isa |-> [i \in 1..Len(isa) |-> VarJ(isa[i])], t |-> texts, r |-> Select(isa, texts, 1)])>>)
+Emit == isa # <<>> => PrintT(<<"EMIT", ToJson([isa |-> [i \in 1..Len(isa) |-> VarJ(isa[i])], t |-> texts, r |-> Outcome(isa, texts), sel |-> Select(isa, texts, 1)])>>)
 =============================================================================
